@@ -181,8 +181,11 @@ def gen_scenario(r, cls: str) -> Dict[str, Any]:
     # bars may summarise more than the spacing between them (e.g. 2 h or 4 h bars published every hour)
     sc["bar_hours"] = {pname: r.choice([1, 1, 1, 2, 4]) for pname in bars}
 
-    if cls == "ample" and r.random() < 0.2:
+    if (cls == "ample" and r.random() < 0.2) or (cls == "feesliq" and r.random() < 0.15):
         sc["bars2"] = second_feed(bars, r.choice(list(bars)))
+    # how the lending strategy is supplied: configured MarginLoans, a subclass answering get_conditions() itself, or a
+    # thin LendingStrategy that delegates to a MarginLoans it owns
+    sc["lend_style"] = r.choice(["plain", "plain", "plain", "subclass", "wrapper"]) if lend is not None else "plain"
     # ---- initial balances ----------------------------------------------------------------
     init = {}
     if cls == "ample":
@@ -314,6 +317,15 @@ def _gen_action(r, cls: str, sc, pname: str, close: D, nxt, bprec: int, qprec: i
             act["stop"] = _s(_price(r, close, qprec, nxt))
         # invalid requests
         y = r.random()
+        if y > 0.97 and kind != "market" and qprec > bprec:
+            # the amount has more decimals than the base precision allows (must be refused) and happens to be the very
+            # number used as the order's price
+            v = q(close, qprec)
+            if v != q(v, bprec, decimal.ROUND_DOWN) and v > 0:
+                act["amount"] = _s(v)
+                for k_ in ("limit", "stop"):
+                    if k_ in act:
+                        act[k_] = _s(v)
         if y < 0.03:
             act["amount"] = r.choice(["0", "-1", _s(D(act["amount"]) + unit(bprec) / 10)])
         elif y < 0.05 and "limit" in act:
@@ -322,8 +334,12 @@ def _gen_action(r, cls: str, sc, pname: str, close: D, nxt, bprec: int, qprec: i
             act["stop"] = r.choice(["0", _s(D(act["stop"]) + unit(qprec) / 7)])
         return act
     if x < w_order + 0.12:
-        return {"op": "cancel", "among": r.choice(["open", "open", "open", "any", "closed", "unknown"]),
-                "pick": r.randrange(1000)}
+        c_ = {"op": "cancel", "among": r.choice(["open", "open", "open", "any", "closed", "unknown"]), "pick": r.randrange(1000)}
+        if nxt is not None and r.random() < 0.15:
+            # the handler leaves the cancellation to a job it schedules for "now" or for a time already in the past
+            # (e.g. the begin of the bar being handled): the job runs before the next bar, with the clock where it is
+            return {"op": "schedule", "minutes": r.choice([0, -30, -60, -600]), "action": dict(c_, among="open")}
+        return c_
     if x < w_order + 0.17:
         return {"op": "query"}
     if x < w_order + 0.17 + (0.2 if cls == "margin" else 0.1):
